@@ -5,6 +5,7 @@ from .. import oracle
 from ..derivcheck import run_first_order
 from ..engine import Prop, Test
 from ..templates import TEMPLATES
+from ..templates.core import complex_capable
 from . import kinks
 
 RULE = (
@@ -16,11 +17,20 @@ RULE = (
     "cotangent and the oracle was conclusive; distinct by (template, feature tuple, argsel, carrier) - value seeds do "
     "not count as distinct. Kink tests: ties / zeros / clip bounds / x**y at 0 constructed explicitly; the pairing "
     "with 5 directions must lie between the one-sided directional derivatives."
+    " Also: the namespace sweep (x:sweep / x:sweep_rest: every callable of autograd.numpy, .linalg and .fft in eight generic call forms - "
+    "a function that has or acquires a rule but no template is still held to right-or-raises) and, for complex-capable templates, "
+    "<mode>c:* tests with any subset of the arguments complex (real argument next to a complex partner and vice versa)."
 )
 
 
 def _body(tdef, case):
     return run_first_order(case, tdef, "rev")
+
+
+def _body_mixed(tdef, case):
+    # any subset of the arguments complex (C09 owns the complex convention; here the point is the PARTNER operands: a real argument
+    # differentiated next to a complex one and vice versa, in this mode)
+    return run_first_order(case, tdef, "rev", allow_complex=True)
 
 
 def coverage_accounting(agg):
@@ -41,6 +51,8 @@ def tests():
     out = []
     for name, t in sorted(TEMPLATES.items()):
         out.append(Test("rev:" + name, partial(_body, t), quick=200 * t.weight, thorough=1500 * t.weight, shard_size=200))
+        if complex_capable(t):
+            out.append(Test("revc:" + name, partial(_body_mixed, t), quick=40 * t.weight, thorough=300 * t.weight, shard_size=200))
     out += kinks.tests("rev")
     return out
 
